@@ -127,8 +127,16 @@ func runSCEP(k *Case) result {
 	// the reply as a client reads it
 	cl, got := "err", "none"
 	var hs []handed
+	why := fmt.Sprintf("http %d", rec.Code)
 	if rec.Code == http.StatusOK {
-		if p7, err := pkcs7.Parse(rec.Body.Bytes()); err == nil && p7.Verify() == nil {
+		p7, err := pkcs7.Parse(rec.Body.Bytes())
+		if err != nil {
+			why = "reply does not parse: " + err.Error()
+		} else if verr := p7.Verify(); verr != nil {
+			why = "reply signature: " + verr.Error()
+		}
+		if err == nil && p7.Verify() == nil {
+			why = "status not SUCCESS"
 			var st smallscep.PKIStatus
 			if p7.UnmarshalSignedAttribute(oidPKIStatus, &st) == nil && st == smallscep.SUCCESS {
 				cl = "ok"
@@ -149,7 +157,7 @@ func runSCEP(k *Case) result {
 		}
 	}
 	if os.Getenv("VERIF_DEBUG") != "" {
-		fmt.Fprintf(os.Stderr, "%s -> %d %s %s\n", k.render()[:70], rec.Code, cl, got)
+		fmt.Fprintf(os.Stderr, "%s -> %d %s %s (%s)\n", k.render()[:70], rec.Code, cl, got, why)
 	}
 	d := func(t string) int { return after[t] - before[t] }
 	stored := d("x509_certs")
